@@ -4,6 +4,7 @@ mod vec_suite;
 mod import_suite;
 mod lazy_suite;
 mod eager_suite;
+mod fault_suite;
 
 use util::*;
 
@@ -27,6 +28,7 @@ fn main() {
             let rep = rawdb_suite::run(arg(&args, "--depth", 3usize), arg(&args, "--random-secs", 5u64), arg(&args, "--random-depth", 12usize), seed, thorough, threads);
             println!("{}", rep.to_json());
         }
+        "fault" => { println!("{}", fault_suite::run().to_json()); }
         "eager" => { println!("{}", eager_suite::run(arg(&args, "--depth", 3usize), threads).to_json()); }
         "lazy" => { println!("{}", lazy_suite::run(arg(&args, "--maxn", 4usize)).to_json()); }
         "import" => { println!("{}", import_suite::run().to_json()); }
